@@ -15,6 +15,8 @@ import (
 	"unsafe"
 
 	"golang.org/x/tools/go/ssa"
+
+	"verif/engine/smt"
 )
 
 // If the target program panics, the interpreter panics with this type.
@@ -280,6 +282,35 @@ func slice(i *interpreter, x, lo, hi, max value) value {
 		a := (*x).(array)
 		Len = len(a)
 		Cap = cap(a)
+	}
+
+	// string[lo:lo+n] with symbolic lo and constant n: select bytes, no case split
+	if ls, ok := lo.(*sym); ok && max == nil {
+		if hs, ok := hi.(*sym); ok {
+			switch x.(type) {
+			case string, *symstr:
+				if d := i.ctx.Bin(smt.OBVSub, hs.t, ls.t); d.IsConst() && int64(d.Val) >= 0 && int64(d.Val) <= int64(Len) {
+					n := int(d.Val)
+					b := i.strBytes(x)
+					c := i.ctx
+					lt := ls.t
+					if lt.Sort.W != 64 {
+						panic(unsupported("symbolic slice bound of width != 64"))
+					}
+					// bounds: 0 <= lo <= Len-n (unsigned compare covers negatives)
+					if !i.branch(c.Bin(smt.OBVULE, lt, c.BVConst(uint64(Len-n), 64))) {
+						panic(runtimeError("runtime error: slice bounds out of range [symbolic]"))
+					}
+					out := make([]value, n)
+					for k := 0; k < n; k++ {
+						idx := c.Bin(smt.OBVAdd, lt, c.BVConst(uint64(k), 64))
+						// idx may reach Len-1 at most; pad the table view so idx+k stays in range
+						out[k] = i.selectElem(b, idx, types.Uint8)
+					}
+					return mkstr(out)
+				}
+			}
+		}
 	}
 
 	l := int64(0)
@@ -1075,6 +1106,39 @@ func callBuiltin(caller *frame, callpos token.Pos, fn *ssa.Builtin, args []value
 
 	case "recover":
 		return doRecover(caller)
+
+	case "String": // unsafe.String(ptr *byte, len)
+		n := int(asInt64(i.concreteInt(args[1], "unsafe.String length")))
+		switch p := args[0].(type) {
+		case []value:
+			return mkstr(p[:n])
+		case string, *symstr:
+			return mkstr(i.strBytes(p)[:n])
+		case *value:
+			if p == nil && n == 0 {
+				return ""
+			}
+		}
+		panic(unsupported(fmt.Sprintf("unsafe.String on %T", args[0])))
+
+	case "StringData": // unsafe.StringData(s) -> pseudo pointer: the string itself
+		return args[0]
+
+	case "SliceData": // unsafe.SliceData(s) -> pseudo pointer: the slice itself
+		return args[0]
+
+	case "Slice": // unsafe.Slice(ptr, len)
+		n := int(asInt64(i.concreteInt(args[1], "unsafe.Slice length")))
+		switch p := args[0].(type) {
+		case []value:
+			return p[:n:n]
+		case string, *symstr:
+			b := i.strBytes(p)
+			out := make([]value, n)
+			copy(out, b[:n])
+			return out
+		}
+		panic(unsupported(fmt.Sprintf("unsafe.Slice on %T", args[0])))
 
 	case "ssa:wrapnilchk":
 		recv := args[0]
